@@ -14,6 +14,7 @@ package control
 
 import (
 	"fmt"
+	"io"
 	"net/url"
 	"os"
 	"path/filepath"
@@ -34,6 +35,15 @@ var c14CtlLog = func() *logrus.Logger {
 	return l
 }()
 
+// the region has a `log.IsLevelEnabled(logrus.DebugLevel)` arm (the member listing): half of the ops
+// run with a Debug-level logger that writes nowhere, so that this arm is executed too
+var c14CtlDebugLog = func() *logrus.Logger {
+	l := logrus.New()
+	l.SetLevel(logrus.DebugLevel)
+	l.SetOutput(io.Discard)
+	return l
+}()
+
 var c14CtlNetTypes = []*dialer.NetworkType{
 	{L4Proto: consts.L4ProtoStr_TCP, IpVersion: consts.IpVersionStr_4},
 	{L4Proto: consts.L4ProtoStr_TCP, IpVersion: consts.IpVersionStr_6},
@@ -44,7 +54,8 @@ var c14CtlNetTypes = []*dialer.NetworkType{
 	{L4Proto: consts.L4ProtoStr_TCP, IpVersion: consts.IpVersionStr_4, IsDns: true},
 }
 
-func c14CtlFixedSel(grp *outbound.DialerGroup, index func(*dialer.Dialer) (int, bool)) string {
+func c14CtlFixedSel(grp *outbound.DialerGroup, fixedIndex int, haveIndex bool, index func(*dialer.Dialer) (int, bool)) string {
+	// an error is classified by the SITUATION (index and group size are known), not by its wording
 	one := func(d *dialer.Dialer, err error) string {
 		switch {
 		case err == nil:
@@ -52,10 +63,10 @@ func c14CtlFixedSel(grp *outbound.DialerGroup, index func(*dialer.Dialer) (int, 
 				return fmt.Sprint(idx)
 			}
 			return "?"
-		case strings.Contains(err.Error(), "out of range"):
-			return "range"
-		case strings.Contains(err.Error(), "no dialer in this group"):
+		case len(grp.Dialers) == 0:
 			return "empty"
+		case haveIndex && (fixedIndex < 0 || fixedIndex >= len(grp.Dialers)):
+			return "range"
 		}
 		return "err:" + c14x(err.Error())
 	}
@@ -122,7 +133,23 @@ func TestVerifC14Ctl(t *testing.T) {
 			}
 			over |= d.Over
 		}
-		option := dialer.NewGlobalOption(global, c14CtlLog)
+		lg, logLevel := c14CtlLog, "panic"
+		if r.Bool() {
+			lg, logLevel = c14CtlDebugLog, "debug"
+			stats.Inc("gen.region_run_at_debug_level")
+		} else {
+			stats.Inc("gen.region_run_at_panic_level")
+		}
+		option := dialer.NewGlobalOption(global, lg)
+		if over != 0 {
+			stats.Inc("gen.call_with_override_group")
+		}
+		if len(defs) >= 2 {
+			stats.Inc("gen.call_with_2_plus_groups")
+		}
+		if len(nodes) > 64 {
+			stats.Inc("gen.call_with_large_pool")
+		}
 
 		// the pool as subscriptions: tag -> links, unique link per node
 		tagToNodeList := map[string][]string{}
@@ -160,7 +187,7 @@ func TestVerifC14Ctl(t *testing.T) {
 					err = fmt.Errorf("crash:%v", rec)
 				}
 			}()
-			return c14RealGroupRegion(option, tagToNodeList, groups, global, c14CtlLog)
+			return c14RealGroupRegion(option, tagToNodeList, groups, global, lg)
 		}()
 		defer func() {
 			if res != nil {
@@ -212,8 +239,10 @@ func TestVerifC14Ctl(t *testing.T) {
 						exp = append(exp, l)
 					}
 				}
-				if strings.Join(exp, "\n") != strings.Join(got, "\n") && poolOK == "ok" {
-					poolOK = "order-within-subscription"
+				if strings.Join(exp, "\n") != strings.Join(got, "\n") {
+					// order ACROSS subscriptions is map order already; order inside one is not part of the
+					// statement either (the pool is the quantified input): recorded, not enforced
+					stats.Inc("pool.order_inside_a_subscription_differs_from_written")
 				}
 			}
 		} else {
@@ -233,13 +262,30 @@ func TestVerifC14Ctl(t *testing.T) {
 
 		var body strings.Builder
 		o := c14MultiTok(&body, pool, gs)
-		valid, lenient, kwsubtag := true, false, true
+		valid, lenient, kwsubtag, structonly := true, false, true, false
 		for _, g := range gs {
 			valid = valid && c14Valid(o, g)
 			lenient = lenient || c14LenientPolicy(g.Policy)
 			kwsubtag = kwsubtag && (c14Valid(o, g) || c14OnlyKeywordOnSubtag(o, g))
+			structonly = structonly || c14StructOnly(g)
 		}
 		kwsubtag = kwsubtag && !valid
+		if valid && kind == "after-unfiltered-override" {
+			// would the later subtag groups come out differently if the tags were lost? (oracle side only)
+			lost := make([]c14Node, len(pool))
+			for i, n := range pool {
+				lost[i] = c14Node{Name: n.Name}
+			}
+			for _, g := range gs[1:] {
+				if c14SpecEval(o, lost, g).Members != c14SpecEval(o, pool, g).Members {
+					stats.Inc("discrim.subtag_group_after_unfiltered_override_group_sees_tags")
+					if logLevel == "debug" {
+						stats.Inc("discrim.subtag_group_after_unfiltered_override_group_sees_tags_at_debug_level")
+					}
+					break
+				}
+			}
+		}
 
 		out, ids := "", "-"
 		switch {
@@ -268,9 +314,18 @@ func TestVerifC14Ctl(t *testing.T) {
 					if i, ok := index[dd]; ok {
 						return i, true
 					}
-					// a clone made by the override loop: identified by (link, subscription tag)
-					i, ok := byLink[dd.Property().Link+"\x00"+dd.Property().SubscriptionTag]
-					return i, ok
+					// a clone made by the override loop: identified by (link, subscription tag) …
+					if i, ok := byLink[dd.Property().Link+"\x00"+dd.Property().SubscriptionTag]; ok {
+						return i, true
+					}
+					// … or, if a clone no longer carries its link, by a unique (name, tag) in the pool
+					found, n := -1, 0
+					for i, pn := range pool {
+						if pn.Name == dd.Property().Name && pn.Tag == dd.Property().SubscriptionTag {
+							found, n = i, n+1
+						}
+					}
+					return found, n == 1
 				}
 				members := "-"
 				if len(grp.Dialers) != len(an) {
@@ -304,11 +359,13 @@ func TestVerifC14Ctl(t *testing.T) {
 				pol := string(grp.GetSelectionPolicy())
 				sel := "-"
 				if grp.GetSelectionPolicy() == consts.DialerSelectionPolicy_Fixed {
-					sel = c14CtlFixedSel(grp, idxOf)
 					// the index is not exposed; the model line prints fixed:<i>: print the same from the parsed policy
+					fi, have := 0, false
 					if p, err := outbound.NewDialerSelectionPolicyFromGroupParam(g); err == nil {
 						pol = fmt.Sprintf("fixed:%d", p.FixedIndex)
+						fi, have = p.FixedIndex, true
 					}
+					sel = c14CtlFixedSel(grp, fi, have, idxOf)
 				}
 				parts = append(parts, fmt.Sprintf("pol=%s members=%s sel=%s", pol, members, sel))
 			}
@@ -329,7 +386,7 @@ func TestVerifC14Ctl(t *testing.T) {
 		if parserChanged != "" {
 			pc = c14x(parserChanged)
 		}
-		fmt.Fprintf(side, "grps valid=%v lenient=%v pool=%s nodes=%d groups=%d over=%d via=%s ids=%s parserchanged=%s kind=%s kwsubtag=%v%s\n", valid, lenient, poolOK, len(pool), len(gs), over, via, ids, pc, kind, kwsubtag, extra)
+		fmt.Fprintf(side, "grps valid=%v lenient=%v pool=%s nodes=%d groups=%d over=%d via=%s ids=%s parserchanged=%s kind=%s kwsubtag=%v structonly=%v log=%s%s\n", valid, lenient, poolOK, len(pool), len(gs), over, via, ids, pc, kind, kwsubtag, structonly, logLevel, extra)
 		for _, one := range strings.Split(strings.TrimPrefix(out, "ok "), " | ") {
 			if strings.HasPrefix(out, "ok ") {
 				c14GroupStats(stats, "ok "+one)
@@ -353,19 +410,6 @@ func TestVerifC14Ctl(t *testing.T) {
 			}
 			if len(gs) >= 2 {
 				stats.Inc("discrim.sequence_of_2_plus_groups_built")
-			}
-			if kind == "after-unfiltered-override" {
-				// would the later subtag groups come out differently if the tags were lost?
-				lost := make([]c14Node, len(pool))
-				for i, n := range pool {
-					lost[i] = c14Node{Name: n.Name}
-				}
-				for _, g := range gs[1:] {
-					if c14SpecEval(o, lost, g).Members != c14SpecEval(o, pool, g).Members {
-						stats.Inc("discrim.subtag_group_after_unfiltered_override_group_sees_tags")
-						break
-					}
-				}
 			}
 		}
 	}
